@@ -297,6 +297,37 @@ def run(tier, seed, replay=None):
             for w, r, _, found in res[:: 37]:
                 model_cases.append((f"enc_cands (tk_find_all {gall} {tok_lit(w)} (fun _ => OK true))", r,
                                     {"shape": name, "tokens": [v for _, v in w]}))
+    # ---- the header shapes through get_headers with the follow-up "{": the headers it reports are exactly the matches of
+    #      find_all under an accept test written here (the next token is "{") — also when that "{" is the very last token
+    #      (seeded change C14-26: the follow-up not consulted for a header that runs up to the last token but one)
+    from codelimit.common.Location import Location
+    from codelimit.common.Token import Token
+    from codelimit.common.gsm import matcher
+    from codelimit.common.scope.scope_utils import get_headers
+    from codelimit.common.token_matching.predicate.Symbol import Symbol
+    from pygments.token import Keyword as K, Name as N, Punctuation as Pu, Operator as Op, Literal
+    kinds = {0: K, 1: N.Function, 2: Pu, 3: Op, 7: Literal.Number}
+    shapes = _mk_shapes()
+    for name in ("name groups", "function? name groups"):
+        build = shapes[name][0]
+        words = G.all_words(ALPHA[:6], 5 if tier == "quick" else 6)
+        for w in words:
+            if (2, "{") not in w or (1, "f") not in w:
+                continue
+            toks = [Token(Location(1, i + 1), kinds[k], v) for i, (k, v) in enumerate(w)]
+            try:
+                got = [(h.token_range.start, h.token_range.end) for h in get_headers(toks, build(), Symbol("{"))]
+                want = [(p.start, p.end) for p in matcher.find_all(build(), toks, lambda p: p.end < len(toks) and toks[p.end].is_symbol("{"))]
+            except Exception as ex:
+                chk.violation({"shape": name, "tokens": list(w)}, f"get_headers[{name}] on {' '.join(v for _, v in w)} raised {type(ex).__name__}: {ex}")
+                continue
+            chk.evaluations += 1
+            if want:
+                chk.nontrivial.add(("headers", name, w))
+            if got != want:
+                chk.violation({"shape": name, "tokens": list(w), "headers": got},
+                              f"get_headers[{name}] followed by '{{' on {' '.join(v for _, v in w)} -> {got}; the matches followed by '{{' are {want}")
+        chk.count(f"get_headers with follow-up, shape {name}", len(words))
     # ---- predicates that carry state INSIDE a composite (Or / And of Balanced groups): every attempt must run on its own
     #      copy of that state.  Relational checks (the model has no such predicates): searching the same expression object
     #      twice, searching an equal fresh expression, and each reported match against the isolated run from its start
